@@ -512,8 +512,19 @@ class TorControlProtocol(LineOnlyReceiver):
         keys = [strargs[i] for i in range(0, len(strargs), 2)]
         values = [strargs[i] for i in range(1, len(strargs), 2)]
 
+        for k in keys:
+            if not k or any(c in k for c in ' \t\r\n="'):
+                d = defer.Deferred()
+                d.errback(RuntimeError("Invalid configuration key: %r" % (k,)))
+                return d
+
         def maybe_quote(s):
-            if ' ' in s:
+            # a value Tor would not read back verbatim as a bare word is sent
+            # as a QuotedString with C-style escapes (control-spec 2.1.1)
+            if any(c in s for c in ' \t\r\n"\\'):
+                for (char, esc) in (('\\', '\\\\'), ('"', '\\"'), ('\n', '\\n'),
+                                    ('\r', '\\r'), ('\t', '\\t')):
+                    s = s.replace(char, esc)
                 return '"%s"' % s
             return s
         values = [maybe_quote(v) for v in values]
